@@ -483,4 +483,5 @@ func TestC02(t *testing.T) {
 	vh.Enumerate(t, vh.Spec[GenCase]{Name: "generators-small-grid", Run: runGen}, smallGrid())
 	vh.Drive(t, vh.Spec[GenCase]{Name: "generators", Quick: 4000, Thorough: 150000, Gen: genGen, Run: runGen})
 	vh.Drive(t, vh.Spec[ChainCase]{Name: "chains", Quick: 60000, Thorough: 2000000, Gen: genChain, Run: runChain})
+	vh.Drive(t, vh.Spec[NodeCase]{Name: "node-generators", Quick: 24000, Thorough: 800000, Gen: genNodeCase, Run: runNodeCase})
 }
